@@ -212,7 +212,10 @@ struct Resolve {
 		if (q.kind == K_SCHEDULE) {
 			int prong = -1; const int p = sh.compoParent(q.dest, &prong);
 			// the library marks only when the direct parent is a composite-style region
-			if (sh.st[size_t(q.dest)].parent >= 0 && sh.isCompo(sh.st[size_t(q.dest)].parent)) schedule[size_t(p)] = prong;
+			if (sh.st[size_t(q.dest)].parent >= 0 && sh.isCompo(sh.st[size_t(q.dest)].parent)) {
+				if (schedule[size_t(p)] >= 0 && schedule[size_t(p)] != prong) dontCare[size_t(p)] = 2;   // several scheduling requests for one region: their order is not observable here
+				schedule[size_t(p)] = prong;
+			}
 			return;
 		}
 		// path: every composite ancestor takes the child on the way to the destination
@@ -674,6 +677,7 @@ static void checkConfiguration(World& w, int i, const Op& op, const Obs& before,
 		bool bounced = false;                                        // exited and re-entered within the step (restart in place): statement is silent
 		if (!sh.st[size_t(g)].headless) { for (auto& e : h.trace) if (e.k == EV_CB && e.state == g && (e.method == M_EXIT || e.method == M_ENTER)) bounced = true; }
 		else for (auto& e : h.trace) if (e.k == EV_CB && (e.method == M_EXIT || e.method == M_ENTER) && e.state > g && sh.inSubtree(e.state, g)) bounced = true;   // no head callbacks: judge by the sub-states
+		if (r.dontCare[size_t(g)] == 2) continue;
 		if (left && sched >= 0) care = false;                        // both apply; order not fixed by the statement
 		else if (left) expect = was;
 		else if (sched >= 0) expect = sched;
